@@ -431,3 +431,105 @@ Proof.
       apply C2; [|exact Hnil|exact Hx].
       intros Hn0. assert (Hz : zlen (sub S s n) = n) by (apply zlen_sub; lia). rewrite Hn0 in Hz. cbn in Hz. lia.
 Qed.
+
+Lemma contig_loop_incl_tk : forall v q l tk q1 l', contig_loop v q l = (tk, q1, l') -> forall p, In p tk -> In p q.
+Proof.
+  intros v. induction q as [|p0 t IH]; intros l tk q1 l' H p Hin; cbn [contig_loop] in H.
+  - inversion H; subst. destruct Hin.
+  - destruct (diffv v l (pseq p0) =? 0).
+    + destruct (contig_loop v t (sadd l (zlen (pbytes p0)))) as [[tk' q1'] l2] eqn:E. inversion H; subst.
+      destruct Hin as [Hin|Hin]; [left; exact Hin|right; eapply IH; eauto].
+    + inversion H; subst. destruct Hin.
+Qed.
+
+(* when the run taken by addContiguous is not empty its last byte was held *)
+Lemma send_last_held : forall S i c h used r0 sid nc a e',
+  zlen S < HIS -> cseq r0 = sq i a -> 0 <= a -> a + clen r0 <= zlen S ->
+  qok S i (a + clen r0) HIS (h_queue h) ->
+  sr_next (send fullv c h used r0 sid nc) = sq i e' -> a + clen r0 < e' -> e' <= zlen S ->
+  covl S i (h_queue h) (e' - 1).
+Proof.
+  intros S i c h used r0 sid nc a e' HS Hcq Ha HaS Hq Hnx He1 He2.
+  assert (Hnx' : snd (contig_loop fullv (h_queue h) (sq i (a + clen r0))) = sq i e').
+  { rewrite <- Hnx. unfold send. rewrite Hcq, sadd_sq, add_contiguous_sq_full.
+    destruct (add_pending (h_saved h) (sq i a)) as [[[pre sl] sv1] reld].
+    destruct (contig_loop fullv (h_queue h) (sq i (a + clen r0))) as [[tk q1] nx].
+    match goal with |- context [if ?b then (length ?l, 0) else ?f] => destruct (if b then (length l, 0) else f) as [ndx kskip] end.
+    destruct (keep_conv fullv (skipn ndx (map CPage pre ++ r0 :: map CPage tk)) kskip) as [[sv2 alloc] pk].
+    reflexivity. }
+  pose proof (clen_nonneg r0).
+  destruct (contig_loop_sok S i HIS (h_queue h) (a + clen r0) (a + clen r0) Hq) as (e2 & tk & q1 & Heq & H1 & H2 & Hs & _);
+    try lia; try apply HIS_HI.
+  rewrite Heq in Hnx'. cbn [snd] in Hnx'.
+  assert (e2 = e') by (apply (sq_inj_window i e2 e'); [unfold HIS, HALFW in *; lia|exact Hnx']). subst e2.
+  eapply covl_incl; [eapply contig_loop_incl_tk; exact Heq|].
+  eapply sok_cov; [exact Hs|lia].
+Qed.
+
+(* ---------------------------------------------------------------- received ranges *)
+Definition inR (R : list (Z * Z)) (x : Z) : Prop := exists r, In r R /\ fst r <= x < fst r + snd r.
+Definition Rpos (R : list (Z * Z)) : Prop := Forall (fun r => 0 < snd r) R.
+
+Lemma inR_cons : forall r R x, inR (r :: R) x <-> (fst r <= x < fst r + snd r) \/ inR R x.
+Proof.
+  intros. unfold inR. split.
+  - intros (r' & [Hin|Hin] & H); [subst; left; exact H|right; eauto].
+  - intros [H|(r' & Hin & H)]; [exists r; split; [left; reflexivity|exact H]|exists r'; split; [right; exact Hin|exact H]].
+Qed.
+
+Lemma hits_false : forall R a b, a < b -> Rpos R -> (forall x, a <= x < b -> ~ inR R x) -> hits R a b = false.
+Proof.
+  induction R as [|r t IH]; intros a b Hab Hp Hn; [reflexivity|].
+  inversion Hp as [|? ? Hr Ht]; subst. unfold hits in *. cbn [existsb].
+  rewrite IH; [|exact Hab|exact Ht|intros x Hx Hin; apply (Hn x Hx); apply inR_cons; right; exact Hin].
+  rewrite orb_false_r.
+  destruct ((fst r <? b) && (a <? fst r + snd r)) eqn:E; [|reflexivity]. exfalso.
+  apply (Hn (Z.max a (fst r))); [lia|]. apply inR_cons. left. lia.
+Qed.
+
+Lemma max_recv_ge_acc : forall (R : list (Z * Z)) m, m <= fold_left (fun m r => Z.max m (fst r + snd r)) R m.
+Proof. induction R as [|r t IH]; intros m; cbn [fold_left]; [lia|]. specialize (IH (Z.max m (fst r + snd r))). lia. Qed.
+
+Lemma max_recv_mono : forall (R : list (Z * Z)) m m', m <= m' ->
+  fold_left (fun m r => Z.max m (fst r + snd r)) R m <= fold_left (fun m r => Z.max m (fst r + snd r)) R m'.
+Proof. induction R as [|r t IH]; intros m m' H; cbn [fold_left]; [lia|]. apply IH. lia. Qed.
+
+Lemma inR_max : forall R x, inR R x -> x < max_recv R.
+Proof.
+  unfold max_recv. induction R as [|r t IH]; intros x (r' & Hin & H); [destruct Hin|].
+  cbn [fold_left]. destruct Hin as [Hin|Hin].
+  - subst r'. pose proof (max_recv_ge_acc t (Z.max 0 (fst r + snd r))). lia.
+  - assert (Hx : inR t x) by (exists r'; auto). specialize (IH x Hx).
+    pose proof (max_recv_mono t 0 (Z.max 0 (fst r + snd r)) ltac:(lia)). lia.
+Qed.
+
+Lemma max_recv_cons : forall r R, max_recv R <= max_recv (r :: R) /\ fst r + snd r <= max_recv (r :: R).
+Proof.
+  intros. unfold max_recv. cbn [fold_left]. split.
+  - apply max_recv_mono. lia.
+  - pose proof (max_recv_ge_acc R (Z.max 0 (fst r + snd r))). lia.
+Qed.
+
+(* min_recv: the least start, when some range starts at a and none starts before *)
+Lemma min_recv_acc : forall (R : list (Z * Z)) m a, (forall r, In r R -> a <= fst r) -> a <= m ->
+  (m = a \/ exists r, In r R /\ fst r = a) -> fold_left (fun m r => Z.min m (fst r)) R m = a.
+Proof.
+  induction R as [|r t IH]; intros m a Hall Hm Hex; cbn [fold_left].
+  - destruct Hex as [H|(r & [] & _)]. exact H.
+  - apply IH.
+    + intros r' Hin. apply Hall. right. exact Hin.
+    + specialize (Hall r (or_introl eq_refl)). lia.
+    + destruct Hex as [H|(r' & [Hin|Hin] & H)].
+      * left. specialize (Hall r (or_introl eq_refl)). lia.
+      * subst r'. left. lia.
+      * right. exists r'. auto.
+Qed.
+
+Lemma min_recv_is : forall R a, (forall r, In r R -> a <= fst r) -> (exists r, In r R /\ fst r = a) -> min_recv R = a.
+Proof.
+  intros R a Hall (r & Hin & Hr). unfold min_recv. destruct R as [|(o, n) t]; [destruct Hin|].
+  apply min_recv_acc.
+  - intros r' Hin'. apply Hall. right. exact Hin'.
+  - apply (Hall (o, n)). left. reflexivity.
+  - destruct Hin as [Hin|Hin]; [left; subst r; exact Hr|right; exists r; auto].
+Qed.
